@@ -2,7 +2,7 @@ SPECIFICATION Spec
 CONSTANTS
   K = 2
   Debug = TRUE
-  Fix = {}
+  Fix = {"direct_guard"}
   Ctors = {"var", "map", "map2"}
   Fs1 = {"id", "inc", "const0"}
   Fs2 = {"add"}
